@@ -71,6 +71,13 @@ def optimizeLoopF (ser : List Entry → Bytes) (budget : Nat) (es : List Entry) 
     let b := Build.buildRootsLeaves ser es (trunc x)
     if b.rootBytes.length ≤ budget then some b else optimizeLoopF ser budget es fuel (mul12 x)
 
+/-- ghost: the leaf sizes `int(leafSize)` the loop hands to `buildRootsLeaves`, in order -/
+def triedF (ser : List Entry → Bytes) (budget : Nat) (es : List Entry) : Nat → F32 → List Nat
+  | 0, _ => []
+  | fuel+1, x =>
+    let b := Build.buildRootsLeaves ser es (trunc x)
+    if b.rootBytes.length ≤ budget then [trunc x] else trunc x :: triedF ser budget es fuel (mul12 x)
+
 /-- `optimizeDirectories` with its own schedule, started from the clamped initial value `x0` -/
 def optimizeF (ser : List Entry → Bytes) (budget : Nat) (es : List Entry) (x0 : F32) (fuel : Nat) : Option Build.Built :=
   if es.length < 16384 ∧ (ser es).length ≤ budget then
